@@ -2,6 +2,7 @@ import Driver.SpecCmds
 import Driver.GenCmds
 import Driver.NumCmds
 import Driver.MemCmds
+import Driver.LitCmds
 
 open Driver
 
@@ -17,6 +18,9 @@ def handle (line : String) : String :=
   | some r => r
   | none =>
   match memCmd ws with
+  | some r => r
+  | none =>
+  match litCmd ws with
   | some r => r
   | none => "err unknown-command"
 
